@@ -251,7 +251,7 @@ func c16ListenerFields(c *Ctx) {
 					if !isFA {
 						continue
 					}
-					if fr, okf := fieldRefOf(fa.X.Type(), fa.Field); okf {
+					if fr, okf := fieldRefOfAddr(fa); okf {
 						called[fr] = true
 					}
 				}
@@ -348,7 +348,7 @@ func c17Counters(c *Ctx) {
 				field := ""
 				if u, isLoad := cc.Common().Args[0].(*ssa.UnOp); isLoad {
 					if fa, isFA := u.X.(*ssa.FieldAddr); isFA {
-						if fr, okf := fieldRefOf(fa.X.Type(), fa.Field); okf && fr.Type == "execution" {
+						if fr, okf := fieldRefOfAddr(fa); okf && fr.Type == "execution" {
 							field = fr.Field
 						}
 					}
